@@ -35,13 +35,17 @@ var signedEndpoints = []signedEndpoint{
 			uri = "enode://" + id + "@203.0.113.5:30303"
 		}
 		req := vlib.ConnectReq(host, vlib.Pick(r, "geth", "parity", ""), uri, vlib.Pick(r, "", "0xPayout"))
-		req.VipnodeVersion = vlib.Pick(r, "v1", "verif", "")
+		req.VipnodeVersion = vlib.Pick(r, "v1", "verif", "", "v<2>&1", "a\u2028b")
 		return []interface{}{req}
 	}},
 	{"vipnode_update", func(r *rand.Rand, id string) []interface{} {
 		infos := []ethnode.PeerInfo{}
 		for i := 0; i < r.Intn(3); i++ {
-			infos = append(infos, ethnode.PeerInfo{ID: vlib.NewIdentity("c04peer", i).NodeID, Name: "n", Caps: []string{"eth/63"}})
+			pi := ethnode.PeerInfo{ID: vlib.NewIdentity("c04peer", i).NodeID, Name: vlib.Pick(r, "n", "Geth/<v1>&x"), Caps: []string{"eth/63"}}
+			if r.Intn(2) == 0 {
+				pi.Protocols = map[string]json.RawMessage{"eth": json.RawMessage(vlib.Pick(r, `{"version":63}`, `{"head":"<0x1&2>","d":"\u2028"}`, `"<>"`))}
+			}
+			infos = append(infos, pi)
 		}
 		return []interface{}{pool.UpdateRequest{PeerInfo: infos, BlockNumber: uint64(r.Intn(1000)), Peers: []string{"a"}[:r.Intn(2)]}}
 	}},
@@ -49,7 +53,7 @@ var signedEndpoints = []signedEndpoint{
 		return []interface{}{pool.PeerRequest{Num: 2 + r.Intn(3), Kind: vlib.Pick(r, "geth", "")}}
 	}},
 	{"vipnode_host", func(r *rand.Rand, id string) []interface{} {
-		return []interface{}{pool.HostRequest{Kind: vlib.Pick(r, "geth", "parity"), Payout: vlib.Pick(r, "", "0xP"), NodeURI: "enode://" + id + "@203.0.113.6:30303"}}
+		return []interface{}{pool.HostRequest{Kind: vlib.Pick(r, "geth", "parity"), Payout: vlib.Pick(r, "", "0xP", "<&>"), NodeURI: "enode://" + id + "@203.0.113.6:30303"}}
 	}},
 	{"vipnode_client", func(r *rand.Rand, id string) []interface{} {
 		return []interface{}{pool.ClientRequest{Kind: vlib.Pick(r, "geth", ""), NumHosts: 2 + r.Intn(3)}}
@@ -276,7 +280,7 @@ func buildAlterations(r *rand.Rand, key, other *vlib.Identity, method, identity 
 
 // authWorld builds a small live session for authentication checks.
 func authWorld(driver string, idx int) (*ledgerWorld, error) {
-	lw, err := newLedgerWorld(ledgerOpts{driver: driver, price: mustBig("1000"), interval: time.Minute, nh: 2, nc: 2, nw: 2, family: "c04"})
+	lw, err := newLedgerWorld(ledgerOpts{driver: driver, price: mustBig("1000"), interval: time.Minute, nh: 2, nc: 2, nw: 2, family: "c04", chaos: true, seed: int64(idx)})
 	if err != nil {
 		return nil, err
 	}
@@ -348,6 +352,21 @@ func TestC04(t *testing.T) {
 						ev.Violate("valid-request-refused:"+ep.Method+":"+style, map[string]interface{}{"err": fmt.Sprint(base.Err), "panic": base.Panic, "args": args})
 						lw.w.Close()
 						continue
+					}
+					if style == "wallet" {
+						// external wallets return the recovery byte as 27/28: the same signature, equally valid
+						for _, args27 := range [][]interface{}{ep.Args(r, identity), ep.Args(r, identity), ep.Args(r, identity), ep.Args(r, identity)} {
+							n27 := w.NextNonce(identity)
+							sb, _ := vlib.RefSignBytes(key.Key, ep.Method, identity, n27, args27...)
+							v := sb[64]
+							sb[64] += 27
+							o27 := guardedCall(w.Local, ep.Method, append([]interface{}{"0x" + vlib.EncodeSig(identity, sb), identity, n27}, args27...)...)
+							ev.Case(fmt.Sprintf("%s/wallet/recovery-byte-%d", ep.Method, 27+int(v)), false)
+							ev.Count("valid-legacy-recovery-byte-signatures", 1)
+							if !o27.Accepted || o27.Panic != "" {
+								ev.Violate(fmt.Sprintf("valid-request-refused:%s:wallet:recovery-byte-%d", ep.Method, 27+int(v)), map[string]interface{}{"err": fmt.Sprint(o27.Err), "panic": o27.Panic})
+							}
+						}
 					}
 					if ep.Method == "vipnode_update" {
 						// legacy form: signature over {peers, block_number} only
